@@ -11,7 +11,7 @@ from . import inline
 
 def _sig(b, types):
     try:
-        return [types[b["locals"][i]["ty"]]["s"] for i in range(0, b["argc"] + 1)]
+        return [inline.norm_ty(types[b["locals"][i]["ty"]]["s"]) for i in range(0, b["argc"] + 1)]
     except (IndexError, KeyError):
         return None
 
@@ -41,7 +41,7 @@ def canonicalise(facts):
         if b["kind"] not in ("Fn", "AssocFn") or b["def"] in vocab:
             continue
         sg = _sig(b, types)
-        cands = [d for d in by_prefix.get(_prefix(b["def"]), []) if sigs[d] == sg]
+        cands = [d for d in by_prefix.get(_prefix(b["def"]), []) if [inline.norm_ty(x) for x in sigs[d]] == sg]
         fresh_same = [x for x in facts["bodies"] if x["kind"] in ("Fn", "AssocFn") and x["def"] not in vocab
                       and _prefix(x["def"]) == _prefix(b["def"]) and _sig(x, types) == sg]
         if len(cands) == 1 and len(fresh_same) == 1:
